@@ -25,7 +25,7 @@ class CallGraph:
             while stack:
                 f = stack.pop()
                 self.funcs.append(f)
-                stack.extend(f.nested().values())
+                stack.extend(f.nested_list())
         self.edges = []  # (caller, call, callee)
         self.by_callee = {}
         self.by_caller = {}
